@@ -223,18 +223,102 @@ def rule_r3(chk, db):
                         got[v] = first
         for k, v in want.items():
             chk.verdict(got.get(k) == v, "R3", "error-map." + k, c.loc(), "ParseS3PathError::%s maps to %s (expected %s)" % (k, got.get(k), v), nontrivial=False)
-    # CopySource::parse obeys the same two dominances
-    cs = db.body("s3s::dto::copy_source::CopySource::parse")
-    if cs is not None:
-        names = {callee_def(t) for _, t in cs.calls()}
-        chk.verdict("s3s::path::check_bucket_name" in names and "s3s::path::check_key" in names, "R3", "CopySource.validators", cs.loc(), "CopySource::parse does not run both check_bucket_name and check_key")
-        for bi, si, st in cs.stmts():
-            rv = st["rv"]
-            if rv["k"] == "agg" and rv.get("adt", "").endswith("::CopySource") and rv.get("variant") == "Bucket":
-                f = guards.dominating_facts(cs, bi)
-                okb = any(x[0] == "call" and x[1] == "s3s::path::check_bucket_name" and x[2] is True for x in f)
-                okk = any(x[0] == "call" and x[1] == "s3s::path::check_key" and x[2] is True for x in f)
-                chk.verdict(okb and okk, "R3", "CopySource.Bucket#%d" % bi, cs.loc(bi), "CopySource::Bucket is built without both validators having passed")
+    rule_copysource(chk, db)
+
+
+def rule_copysource(chk, db):
+    """CopySource::parse obeys the same two dominances, on the values it stores"""
+    cs = inline.inlined(db, db.body("s3s::dto::copy_source::CopySource::parse"))
+    if cs is None:
+        chk.anchor_missing("R3", "CopySource::parse not found")
+        return
+    names = {callee_def(t) for _, t in cs.calls()}
+    chk.verdict("s3s::path::check_bucket_name" in names and "s3s::path::check_key" in names, "R3", "CopySource.validators", cs.loc(), "CopySource::parse does not run both check_bucket_name and check_key")
+    n = 0
+    for bi, si, st in cs.stmts():
+        rv = st["rv"]
+        if rv["k"] == "agg" and rv.get("adt", "").endswith("::CopySource") and rv.get("variant") == "Bucket":
+            n += 1
+            m = dict(zip(rv["fields"], rv["ops"]))
+            f = guards.dominating_facts(cs, bi)
+            okb = any(x[0] == "call" and x[1] == "s3s::path::check_bucket_name" and x[2] is True for x in f)
+            okk = any(x[0] == "call" and x[1] == "s3s::path::check_key" and x[2] is True for x in f)
+            chk.verdict(okb and okk, "R3", "CopySource.Bucket#%d" % n, cs.loc(bi), "CopySource::Bucket is built without both validators having passed")
+            for fld, fn in (("bucket", "s3s::path::check_bucket_name"), ("key", "s3s::path::check_key")):
+                op = m.get(fld)
+                if op is None:
+                    continue
+                same = False
+                for x in f:
+                    if x[0] == "call" and x[1] == fn and x[2] is True:
+                        ct = cs.blocks[x[3]]["term"]
+                        if derives_only_from(cs, op, ct["args"][0], bi):
+                            same = True
+                chk.verdict(same, "R3", "CopySource.Bucket#%d.%s-same-value" % (n, fld), cs.loc(bi),
+                            "CopySource::Bucket stores a %s that is not the value %s accepted (e.g. the still-encoded text was validated, the decoded text stored)" % (fld, short(fn)))
+    chk.floor("R3.CopySource", n, 1, "CopySource::Bucket constructions in CopySource::parse")
+
+
+# string operations that drop or rewrite characters of the value they are applied to, or that cut it from the back; none of them can be part
+# of "the key is the rest of the path after the bucket"
+LOSSY_STR_OPS = {
+    "trim", "trim_start", "trim_end", "trim_left", "trim_right", "trim_matches", "trim_start_matches", "trim_end_matches", "trim_left_matches",
+    "trim_right_matches", "trim_ascii", "trim_ascii_start", "trim_ascii_end", "replace", "replacen", "to_lowercase", "to_uppercase",
+    "to_ascii_lowercase", "to_ascii_uppercase", "make_ascii_lowercase", "make_ascii_uppercase", "split_whitespace", "split_ascii_whitespace",
+    "strip_suffix", "rsplit_once", "rsplit", "rsplitn", "rsplit_terminator", "rfind", "split_terminator", "lines", "escape_debug",
+    "escape_default", "escape_unicode", "from_utf8_lossy", "truncate", "pop", "retain", "remove", "drain", "split_off", "filter", "skip",
+    "skip_while", "take", "take_while", "step_by", "rev", "dedup", "normalize", "clean",
+}
+FRONT_STR_OPS = {"strip_prefix", "split_once", "split_at", "split_at_checked", "splitn", "split_inclusive", "split_first", "find", "get", "index"}
+
+
+def lossy_ops(sl):
+    """calls in a value's slice that drop / rewrite characters (by method name on str / String / iterator types)"""
+    out = []
+    for _, t, _ in sl.calls:
+        d = callee_def(t)
+        if short(d) in LOSSY_STR_OPS and (d.startswith("core::str") or d.startswith("alloc::str") or d.startswith("alloc::string") or d.startswith("core::iter")
+                                           or d.startswith("core::slice") or d.startswith("alloc::vec") or d.startswith("std::path") or "path" in d.split("::")[0]):
+            out.append(d)
+    return out
+
+
+def rule_r7(chk, db):
+    """verbatim key: the bucket and key a parser stores are pieces of its `uri_path` argument, cut from the front at `/` and nothing else"""
+    want = {"s3s::path::parse_path_style": {"key": ["split_once", "strip_prefix"], "bucket": ["split_once", "strip_prefix"]},
+            "s3s::path::parse_virtual_hosted_style": {"key": ["strip_prefix"], "bucket": []}}
+    for name, forms in want.items():
+        b = inline.inlined(db, db.body(name))
+        if b is None:
+            raise AnchorMissing("%s not found" % name)
+        path_params = [i for i in range(1, b.argc + 1) if b.locals[i].replace(" ", "").startswith("&") and "str" in b.locals[i] and "Option" not in b.locals[i]]
+        if len(path_params) != 1:
+            raise AnchorMissing("%s: expected one &str path parameter, found %s" % (name, [b.locals[i] for i in range(1, b.argc + 1)]))
+        n = 0
+        for variant in ("Bucket", "Object"):
+            for bi, bop, kop in constructions(b, variant):
+                for fld, op in (("bucket", bop), ("key", kop)):
+                    if op is None:
+                        continue
+                    n += 1
+                    key = "%s.%s#%d.%s" % (short(name), variant, bi, fld)
+                    sl = flow.backward(b, op, at=bi)
+                    bad = lossy_ops(sl)
+                    if bad:
+                        chk.fail("R7", key, b.loc(bi), "the %s stored in S3Path::%s passes through %s, which drops or rewrites characters: it is no longer exactly the text the client sent"
+                                 % (fld, variant, ", ".join(sorted(set(short(x) for x in bad)))))
+                        continue
+                    ps = {l for l, _ in sl.params}
+                    if fld == "key" and not ps <= set(path_params):
+                        chk.fail("R7", key, b.loc(bi), "the key stored in S3Path::%s also depends on parameter(s) %s, not only on the URI path" % (variant, sorted(ps - set(path_params))))
+                        continue
+                    got = sorted(short(callee_def(t)) for _, t, _ in sl.calls if not flow.is_transparent(t))
+                    seps = {c.get("v") for c in sl.consts if c.get("c") == "int" and c.get("ty") == "char"}
+                    exact = got == forms[fld] and seps <= {"47"}
+                    if not exact:
+                        chk.advisory("C12.R7 %s: form not recognised as the exact cut (operations %s, separators %s); only the ban on lossy operations was decided" % (key, got, sorted(seps)))
+                    chk.ok("R7", key, b.loc(bi), "exact front cut" if exact else "no lossy operation")
+        chk.floor("R7." + short(name), n, 3, "bucket/key operands of S3Path constructions in %s" % short(name))
 
 
 def rule_r4(chk, db):
@@ -416,12 +500,14 @@ def run(chk, db, tier):
     chk.rule("R4", "key bound: check_key accepts exactly lengths 0..=1024")
     chk.rule("R5", "configuration refusal: MultiDomain stores only valid, pairwise non-overlapping (both directions) domains; empty refused")
     chk.rule("R6", "bucket naming predicate as an atom table: every core rule present with its exact constants/byte classes (evaluated over 256 bytes); extra rejections only from the complete rule list")
+    chk.rule("R7", "verbatim key: the bucket and key stored in S3Path are pieces of the URI path cut from the front; no operation on the way drops or rewrites characters")
     chk.guard("R1", rule_r1, db)
     chk.guard("R2", rule_r2, db, roles)
     chk.guard("R3", rule_r3, db)
     chk.guard("R4", rule_r4, db)
     chk.guard("R5", rule_r5, db)
     chk.guard("R6", rule_r6, db)
+    chk.guard("R7", rule_r7, db)
 
 
 META = {
